@@ -28,7 +28,9 @@ ASSUMPTIONS = ['the Lean theorems cover plain-word vocabularies; names containin
                'TextMate/Oniguruma and Sublime regex semantics agree with Python re on the generated fragment']
 MN_POOL = ['ld', 'ldx', 'ld2', 'l', 'add', 'addc', 'sub', 'b', 'mov', 'mv', 'jmp', 'j', 'sta', 'st', 'inc', 'x', 'nop', 'ret', 'subb',
            'ld.w', 'st.b', 'mov.l', 'ld.b', '_brk', 'inc_', 'ld_x']
-MAC_POOL = ['push2', 'mac', 'ld16', 'addw', 'm', 'retz', 'mac.w', '_save', 'clr_']
+# 'ld' / 'st' / 'mov' as MACRO names next to the instructions 'ld.w' / 'st.b' / 'mov.l': a name of one vocabulary extended by a
+# name of the other (the order of the rules decides which wins where both match)
+MAC_POOL = ['push2', 'mac', 'ld16', 'addw', 'm', 'retz', 'mac.w', '_save', 'clr_', 'ld', 'st', 'mov']
 REG_POOL = ['a', 'b2', 'ab', 'sp', 'hl', 'h', 'r0', 'r10', 'r1', 'ix', 'r_', '_t']
 PRE_POOL = ['PK_A', 'pk_a', 'BUF', 'BUFFER', 'ZN_IO', 'IO', 'K1']
 COMPILER = ['org', 'memzone', 'align']
@@ -260,8 +262,16 @@ def judge(case, irs, mr):
                         'detail': f'{what}: {cls} pattern {p!r} lists {sorted(alts)} but the ISA configures {sorted(exp)}; ' + det}
     # (iv) classification of probe identifiers, in the rule order of each grammar
     pr = probes(case)
-    order = ['instruction', 'macro', 'register', 'predefined']
+    # the order in which each grammar lists its rules (of two rules that match at one place the first one listed wins)
+    inc2cls = {'#instructions': 'instruction', '#macros': 'macro', '#registers': 'register', '#compiler_labels': 'predefined'}
+    vs_order = [inc2cls[i.get('include')] for i in g.get('main', {}).get('patterns', []) if i.get('include') in inc2cls]
+    sc2cls = {'variable.function.instruction': 'instruction', 'variable.function.macro': 'macro'}
+    sb_order = [sc2cls[r.get('scope')] for r in s.get('instructions', []) if isinstance(r, dict) and r.get('scope') in sc2cls]
+    orders = {}
+    for what, lst in (('vscode', vs_order), ('sublime', sb_order)):
+        orders[what] = lst + [c for c in ('instruction', 'macro', 'register', 'predefined') if c not in lst]
     for what, pats in (('vscode', vs_pats), ('sublime', sb_pats)):
+        order = orders[what]
         rules = [(c, pats[c]) for c in order if pats[c] is not None and want[c]]
         for w, mi, ms in zip(pr, mr['impl'], mr['spec']):
             got = classify_with(rules, w)
@@ -299,7 +309,7 @@ def judge(case, irs, mr):
                     words.append(r5.choice(['zz9', 'q7', 'foo_bar']))
                     expect.append('param')
             for what, pats in (('vscode', vs_pats), ('sublime', sb_pats)):
-                top = [(c, pats[c]) for c in ('instruction', 'macro') if pats[c] is not None and want[c]]
+                top = [(c, pats[c]) for c in orders[what] if c in ('instruction', 'macro') and pats[c] is not None and want[c]]
                 if any(ends[what].get(c) is None for c, _ in top):
                     return {'verdict': Verdict.VIOLATION, 'tags': tags, 'detail': f'{what}: no end-of-operands pattern; ' + det}
                 got = classify_line(top, ends[what], pats['register'] if want['register'] else None, words)
